@@ -146,6 +146,16 @@ CHECKS["C04"] = ("DESIGN.md C04",
     "collections. 16 comprehension forms x iterable kinds against their explicit-loop expansion, both "
     "run by the real interpreter on the same symbolic collection.")
 
+CHECKS["C03"] = ("DESIGN.md C03",
+    "6 scoping template programs (shadowing over 4 scope levels with run-time selectors for 'this "
+    "level defines / assigns the name', closures called from a scope binding the same name, "
+    "counters, curried/composed functions, bounded recursion, assignment before/after capture, "
+    "fresh parameter bindings) with every stored value a distinct symbolic int, against explicit "
+    "environment chains; Args.setArgs for 0..3 parameters, optional rest parameter and up to 3 "
+    "(thorough 4) arguments each positional or named (p0/p1/p2/unknown) against the binding model; "
+    "27 call forms (named, defaults, rest, list/map spread, pipeline, method calls with prototype "
+    "chains) with symbolic argument values.")
+
 NA = {}
 
 
